@@ -302,5 +302,24 @@ CHECKS["C17"] = {
     "note": "<=3/4 offers; factories without side effects or adaptee-dependent conditions; ties between unrelated "
             "source types are free",
 }
+CHECKS["C19"] = {
+    "category": "model_checking",
+    "technique": "exhaustive single-fault enumeration: every user-callback invocation of every scenario raises each of 4 exception classes on freshly rebuilt objects; pre-state / fault-free-twin comparison",
+    "text": "42 operations with user callbacks (custom TraitType.validate on assignment, trait_set, trait_setq, "
+            "quiet trait_set and constructor; second alternative of a Union; _name_default and factory defaults on "
+            "read and on del; property getter, setter, validator and cached getter; List/Dict/Set item, key and value "
+            "validators at every item of append/extend/insert/slice/+=/update/|=/^=/setdefault/whole-value "
+            "assignment, on trait values and on raw TraitList/TraitDict/TraitSet; adapter factories 1..3 of a chain; "
+            "filter callables of match() during observe registration and removal; static, on_trait_change, observe "
+            "and items change handlers) x 2 pre-states. A fault-free run counts the callback invocations n; for every "
+            "k<=n and each of TraitError/ValueError/AttributeError/RuntimeError the k-th invocation raises. "
+            "Outcome-deciding callbacks: the caller gets the injected exception object or a TraitError, the full "
+            "snapshot (values by identity, container contents, notifier fingerprint, caches, raw containers) equals "
+            "the pre-state, no handler was called, and an 18-step follow-up suite behaves as on an object that never "
+            "saw the operation. Change handlers: the operation completes, state and every other handler's log equal "
+            "the fault-free run, follow-up equals the fault-free twin.",
+    "note": "one fault per operation; post_setattr not in the statement's callback list; single keyword for "
+            "trait_set/constructor",
+}
 
 NOT_CLAIMED = {}
